@@ -7,6 +7,9 @@ values under every RNG script, substitution succeeds or fails identically.
 import itertools
 
 from d42 import fake, substitute, validate
+from d42.representation import Representor
+from d42.validation import Validator
+from th import PathHolder
 
 from .. import e2
 from ..codec import src, unsrc
@@ -95,11 +98,33 @@ def errs(s, v):
         return "raises:" + type(e).__name__
 
 
+# second, differently configured instances of the visitor classes (the module-level defaults are
+# always used first in a process, so per-class caches of "the" visitor show up here)
+REPR2 = Representor("s", indent=2)
+VALID2 = Validator(path_holder_factory=lambda: PathHolder("root"))
+
+
 def judge(t, tw, s, sw, vals, rng, acc=None):
     found = []
     rs, rw = safe_repr(s, 5000), safe_repr(sw, 5000)
     if rs != rw:
         found.append(("C16|repr-differs", rw[:300]))
+    try:
+        a2, b2 = s.__accept__(REPR2), sw.__accept__(REPR2)
+    except Exception as e:  # noqa: BLE001
+        a2, b2 = "x", f"raises {type(e).__name__}"
+    if a2 != b2:
+        found.append(("C16|repr-differs-under-a-second-representor-instance", str(b2)[:300]))
+    for v in vals[:8]:
+        try:
+            ea = safe_repr(s.__accept__(VALID2, value=v).get_errors(), 3000)
+            eb = safe_repr(sw.__accept__(VALID2, value=v).get_errors(), 3000)
+        except Exception as e:  # noqa: BLE001
+            ea, eb = "x", f"raises {type(e).__name__}"
+        if ea != eb:
+            found.append(("C16|errors-differ-under-a-second-validator-instance",
+                          f"v={src(v)} builtin={ea[:200]} custom={eb[:200]}"))
+            break
     for v in vals:
         if acc:
             acc.count("validations")
